@@ -248,19 +248,20 @@ def run_exec(cmd, cases, per_case_timeout=10.0, label=''):
                     break
             rc = 124 if timed_out else p.returncode
             so.seek(0)
-            lines = so.read(1 << 30).decode('utf-8', 'replace').splitlines()      # an executor may print a non-UTF-8 string it was handed
+            got = 0
+            for raw in so:          # line by line: the answers of a thorough run are gigabytes (an earlier `read(1 << 30)` cut them and the case at the cut looked unanswered)
+                l = raw.decode('utf-8', 'replace')      # an executor may print a non-UTF-8 string it was handed
+                if not l.strip(): continue
+                try:
+                    o = json.loads(l)
+                except Exception:
+                    break
+                if o.get('id') != todo[got]['id']:
+                    break
+                answers[o['id']] = o
+                got += 1
+                if got == len(todo): break
         hangs += timed_out
-        got = 0
-        for l in lines:
-            try:
-                o = json.loads(l)
-            except Exception:
-                break
-            if o.get('id') != todo[got]['id']:
-                break
-            answers[o['id']] = o
-            got += 1
-            if got == len(todo): break
         if got == len(todo):
             break
         # the executor stopped at todo[got]
